@@ -37,8 +37,8 @@ SPEC = {
 }
 
 PLAN = {
-    "quick": {"small_n": 4, "random": {"M2": 1400, "M3": 900, "M4": 300, "M5": 300, "M7s": 200, "M10hiso": 600}, "variants": 2, "k": 2, "corpus": True, "cfi": 0},
-    "thorough": {"small_n": 5, "small_sample": 0.12, "random": {"M2": 12000, "M3": 8000, "M4": 3000, "M5": 3000, "M7s": 1500, "M10hiso": 6000},
+    "quick": {"small_n": 4, "random": {"M2": 1400, "M3": 900, "M4": 300, "M5": 300, "M7s": 200, "M10hiso": 600, "M12rings": 500}, "variants": 2, "k": 2, "corpus": True, "cfi": 0},
+    "thorough": {"small_n": 5, "small_sample": 0.12, "random": {"M2": 12000, "M3": 8000, "M4": 3000, "M5": 3000, "M7s": 1500, "M10hiso": 6000, "M12rings": 5000},
                  "variants": 4, "k": 4, "corpus": True, "cfi": 6},
 }
 
